@@ -134,7 +134,17 @@ def gen_case(rng):
         if lstem != "link" and rng.random() < 0.5:
             layout[lstem.split(".")[0] + ".yaml"] = {"fmt": "yaml", "docs": [{"decoy_parent_of_link_name": True}]}
         lname = lstem + "." + target.rsplit(".", 1)[1]
-        if rng.random() < 0.35:
+        if rng.random() < 0.2:
+            # a LONG chain of links: os.Root follows at most 8 symbolic links in one open (rootMaxSymlinks); the 9th is an error
+            n = rng.choice([6, 7, 8, 9, 10])
+            prev = target
+            for k in range(1, n):
+                nm = "ch%d.%s" % (k, target.rsplit(".", 1)[1])
+                layout[nm] = {"link": prev}
+                prev = nm
+            layout[lname] = {"link": prev}
+            meta["kind"] = "symlink-chain-%d" % n
+        elif rng.random() < 0.35:
             # link -> link -> file: the chain comes from the FINAL target's name, not from the middle link's
             mid = rng.choice(["mid", "m.n", "zz.yy.xx"]) + "." + target.rsplit(".", 1)[1]
             layout[mid] = {"link": target}
